@@ -253,7 +253,11 @@ def run_translator(ck):
            "Definition CFL := Eval vm_compute in (fetch_loop_ok gen_fetch_loop, strip_plain gen_fetch_loop).\nPrint CFL.\n"
            "Definition CPG := Eval vm_compute in (ping_ok gen_ping_prog, strip_pplain gen_ping_prog).\nPrint CPG.\n"
            "Definition CRL := Eval vm_compute in (gen_run_cases, gen_insert_ctx_writers).\nPrint CRL.\n"
-           "Definition CRLM := Eval vm_compute in (run_cases_model, insert_ctx_writers_model).\nPrint CRLM.\n")
+           "Definition CRLM := Eval vm_compute in (run_cases_model, insert_ctx_writers_model).\nPrint CRLM.\n"
+           "Definition MLO := Eval vm_compute in (lock_order_ok gen_mtx_methods && lockers_present gen_mtx_methods, lock_order_offenders gen_mtx_methods, "
+           "Z.of_nat (List.length gen_mtx_methods), Z.of_nat (List.length (filter mm_locks gen_mtx_methods))).\nPrint MLO.\n"
+           "Definition MHK := Eval vm_compute in (held_calls_known gen_mtx_methods, held_calls_unknown gen_mtx_methods, gen_mtx_odd_uses).\nPrint MHK.\n"
+           "Definition MBS := Eval vm_compute in gen_bulk_size_sources.\nPrint MBS.\n")
     txt = txt.replace("model.IngestPipe gen.GenGoroutinesWriter", "model.IngestPipe model.IngestFraming model.IngestShared model.IngestConn gen.GenGoroutinesWriter")
     ok, out = ck.coq_make(["model/IngestRobust.vo", "model/IngestPipe.vo", "model/IngestFraming.vo", "model/IngestShared.vo", "model/IngestConn.vo", "model/IngestHanded.vo", "gen/GenGoroutinesWriter.vo"])
     if not ok:
@@ -357,6 +361,17 @@ def run_translator(ck):
     ck.obligation("InsertServiceV2.Run selects watchdog -> ping, ctx -> return, insertCtx -> fetchLoopIteration, and only Init / swapBuffers renew insertCtx "
                   "(run_loop_in_source: after a refused dial the context stays done and the iteration is called again)", val("CRL") == val("CRLM") and val("CRL") != "?",
                   "(select cases, functions assigning svc.insertCtx) = %s; modelled: %s" % (val("CRL"), val("CRLM")))
+    ck.obligation("no method of InsertServiceV2 / InsertServiceV2RoundRobin / InsertServiceV2Multimodal calls, while it holds its mutex, a method of the same object that "
+                  "locks that mutex (directly or through further calls on the receiver), nor locks it a second time; Request, swapBuffers, PlanFlush and Init lock it "
+                  "(service_lock_order_in_source; sync.Mutex is not re-entrant: the call would block for ever holding the mutex, whatever the configuration)",
+                  val("MLO").startswith("(true"), "(ok, offenders (type, method, re-lock written inside the region, methods called under the mutex that lock it), methods, "
+                  "methods that lock) = %s (see coq/gen/GenGoroutinesWriter.v, gen_mtx_methods)" % val("MLO"))
+    ck.obligation("every other callee met while a service mutex is held is on the allow-lists of model/IngestConn.v (function fields processRequest / insertCancel / "
+                  "acquireColumns; append, len, p.Done, context.*, time.*, ...) and the mutex is used through Lock() / Unlock() statements and deferred Unlock() only",
+                  val("MHK").replace(" ", "").startswith("(true,[],[])"), "(ok, (type, method, callees not on the lists), mutex uses of another shape) = " + val("MHK"))
+    ck.obligation("every InsertServiceOpts literal under writer/ takes MaxQueueSize from SYSTEM_SETTINGS.DBBulk (BULK_MAX_SIZE_BYTES; the bulk size harness conndown hands to its nodes' services)",
+                  val("MBS").replace(" ", "") == '["int64(config.SYSTEM_SETTINGS.DBBulk)"]', "gen_bulk_size_sources = " + val("MBS"))
+    ck.extra["methods_of_the_insert_service_types_walked_for_the_lock_order_(all,_locking)"] = val("MLO").rsplit(",", 2)[-2:] if val("MLO").count(",") >= 2 else val("MLO")
     dfp = val("DFP").replace("%N", "")
     probes = parse_probes(dfp)
     if dfp.replace(" ", "") != "([],[])" and probes in (None, ([], [])):
@@ -1142,7 +1157,7 @@ def run_shared(ck):
 
 
 CONN_CORPUS = os.path.join(HERE, "corpus", "C05", "conn.jsonl")
-CONN_KEYS = ("id", "class", "kind", "pushes", "rows", "warm", "dial", "do", "ping", "hold", "close_err", "attempts")
+CONN_KEYS = ("id", "class", "kind", "pushes", "rows", "warm", "dial", "do", "ping", "hold", "close_err", "bulk", "attempts")
 CONN_REPLAY = "bin/check C05 --replay <this file>   (or: conndown --serial --cases <file with the conn_case line>)"
 
 
@@ -1299,12 +1314,15 @@ def run_conn(ck, started):
         o = w["obs"]
         un = sum(1 for x in o.get("status") or [] if x <= 0)
         ck.violation({"property": "C05", "kind": "a push is not answered / a promise is never completed when the ClickHouse connection misbehaves: %d of %d pushes without an HTTP "
-                      "response within the deadline, promises issued %d completed %d, goroutines left in request code %s, statuses %s" % (
-                          un, w["pushes"], o["issued"], o["completed"], o.get("goroutines_left"), o.get("status")),
+                      "response within the deadline, promises issued %d completed %d, goroutines left in request code %s, statuses %s%s" % (
+                          un, w["pushes"], o["issued"], o["completed"], o.get("goroutines_left"), o.get("status"),
+                          ("; the node's services run with bulk size %d (BULK_MAX_SIZE_BYTES), %d Request(s) above it, %d PlanFlush call(s) of the harness never returned "
+                           "(the service mutex is not released)" % (w["bulk"], o.get("over_bulk", 0), o.get("flush_stuck", 0))) if w.get("bulk") else ""),
                       "conn_case": {k: w[k] for k in CONN_KEYS if k in w}, "observed": o, "others": [i for i in viol if i != w["id"]][:20],
                       "explanation": "conn_spec_ok (model/IngestConn.v). The case's node has its own insert services over a scripted connection: the k-th dial / INSERT / ping of a "
                                      "service does what dial[k] / do[k] / ping[k] says (0 ok; dial 1 refused; do / ping 1 error, 2 blocks until the write timeout); warm = a push "
-                                     "with the database up comes first; hold = the harness waits for the scripted ping failure before / after it sends the pushes",
+                                     "with the database up comes first; hold = the harness waits for the scripted ping failure before / after it sends the pushes; "
+                                     "bulk = MaxQueueSize of the node's services (SYSTEM_SETTINGS.DBBulk / BULK_MAX_SIZE_BYTES; 0 = shipped default)",
                       "replay": CONN_REPLAY})
     elif mism:
         w = min((byid[i] for i in mism), key=size)
@@ -1332,7 +1350,10 @@ def run_conn(ck, started):
         "failed_pings_with_a_request_waiting": sum(c["obs"]["ping_fail_waiting"] for c in cases),
         "failed_or_timed_out_INSERTs": sum(c["obs"]["do_fail"] for c in cases),
         "pushes_answered_5xx_after_all_attempts": sum(1 for c in cases for x in c["obs"]["status"] if x >= 500),
-        "pushes": sum(c["pushes"] for c in cases), "slowest_answer_ms": max(c["obs"]["max_ms"] for c in cases)}
+        "pushes": sum(c["pushes"] for c in cases), "slowest_answer_ms": max(c["obs"]["max_ms"] for c in cases),
+        "scenarios_with_a_bulk_size_(BULK_MAX_SIZE_BYTES>0)": {str(v): sum(1 for c in cases if c.get("bulk", 0) == v) for v in sorted(set(c.get("bulk", 0) for c in cases)) if v},
+        "scenarios_in_which_a_Request_is_above_the_bulk_size": sum(1 for c in cases if c["obs"].get("over_bulk", 0) > 0),
+        "Requests_above_the_bulk_size": sum(c["obs"].get("over_bulk", 0) for c in cases)}
     ck.add_samples([{"class": c["class"], "scenario": {k: c[k] for k in CONN_KEYS if k in c and k not in ("id", "class")},
                      "obs": {k: c["obs"].get(k) for k in ("status", "max_ms", "issued", "completed", "dial_refused", "refused_waiting", "do_ok", "do_fail", "rows_stored")}}
                     for c in cases if c["obs"]["refused_waiting"] > 0][:1])
